@@ -68,9 +68,21 @@ def wf_attr(a):
     if len(p) > 65535: return 'value longer than an attribute can carry'
     return None
 
+def host_octets(addr_bytes, m):
+    """address octets after the ceil(m / 8) that travel on the wire"""
+    return addr_bytes[(m + 7) // 8:]
+
+def nlri_addr_bytes(n):
+    a = n[1] if n[0] in (4, 6) else n[2] if n[0] in (14, 16) else n[3]
+    return be32(a) if isinstance(a, int) else a
+
 def wf_nlri(n):
     """n as printed by the harness: what the NLRI decoders guarantee"""
     t = n[0]
+    if t in (4, 6, 14, 16, 24, 26):
+        m = n[-1]
+        if m <= (32 if t in (4, 14, 24) else 128) and any(host_octets(nlri_addr_bytes(n), m)):
+            return 'address octets set beyond the %d-bit prefix (no decoder produces them)' % m
     if t == 4: return None if n[2] <= 32 and 0 <= n[1] < 2 ** 32 else 'IPv4 prefix length %d' % n[2]
     if t == 6: return None if n[2] <= 128 else 'IPv6 prefix length %d' % n[2]
     if t in (14, 16):
@@ -159,6 +171,32 @@ def unfaithful_nlri(x, n):
         if m != xm: return 'prefix length %d stored as %d' % (xm, m)
         if labels != xl: return 'labels %s stored as %s' % (xl[:4], labels[:4])
         if t == 3 and api_rd_bytes(x[2]) != n[2]: return 'route distinguisher of the message stored as other octets'
+    return None
+
+# ---- kind 8: API NLRI of flowspec / SR policy / RTC / MUP
+def xnlri_modelled(c):
+    return False
+
+def xnlri_known_class(c, obs):
+    """RTC values of the open class C17-rtc (as printed in the wire bytes of the accepted NLRI)"""
+    b = obs[2]
+    if c['x'][0] == 13 and isinstance(b, list) and b and b[0] != -1:
+        if len(b) == 5 and b[0] == 32 and b[1:5] == [0, 0, 0, 0]: return 'C17-rtc'
+        if len(b) == 13 and b[0] == 96 and (b[5] not in (0, 1, 2) or b[6] != 2): return 'C17-rtc'
+    return None
+
+def oracle_xnlri(c, obs):
+    if obs[0] == 0:
+        return None
+    text = bytes(obs[1]).decode('latin1')[:80]
+    if obs[2] == [-1]: return 'an accepted NLRI panics its encoder: ' + text
+    if obs[3] == [-1]: return 'an accepted NLRI panics the decoder when read back: ' + text
+    if obs[5] == [-1]: return 'an accepted NLRI panics nlri_to_api: ' + text
+    if obs[4] == [-1]: return 'an accepted NLRI panics net_from_api when listed and added again: ' + text
+    cls = xnlri_known_class(c, obs)
+    tag = 'xnlri[%s]: ' % cls if cls else 'xnlri: '
+    if obs[3] != 1: return tag + 'an accepted NLRI does not decode back from its own wire encoding to the same value (not one a decoder can produce): ' + text
+    if obs[4] != 0: return tag + 'an accepted NLRI is %s when listed and added again: %s' % ('refused' if obs[4] == 2 else 'changed', text)
     return None
 
 # ---- EVPN (kinds 6, 7)
@@ -525,6 +563,9 @@ def gen_nlri_case(rng):
     else:
         m = rng.choice([0, 1, 32, 48, 64, 127, 128]) if not bad else rng.choice([129, 200, 255])
         a = v6_rand(rng)
+    if rng.random() < 0.9 and m <= (32 if t in (4, 14, 24) else 128):
+        w = 4 if t in (4, 14, 24) else 16
+        a = a >> (8 * (w - (m + 7) // 8)) << (8 * (w - (m + 7) // 8))
     if t in (4, 6): return {'k': 3, 'n': [t, a, m]}
     nl = rng.choice([1, 1, 2, 3, 5]) if not bad else rng.choice([0, 11])
     if t in (24, 26) and not bad: nl = rng.choice([1, 1, 2]) if m > 100 else nl
@@ -562,6 +603,60 @@ def gen_local_path_case(rng):
             if a[0] == 9 and a[1] and a[1][0] == 'rep': a = [9, [1, 2]]
         attrs.append(a)
     return {'k': 5, 'fam': fam, 'nlri': n, 'attrs': attrs, 'id': rng.choice([0, 1, 7, 2 ** 32 - 1])}
+
+def gen_xnlri_case(rng):
+    """random API NLRI messages of the flowspec / SR policy / RTC / MUP families (kind 8, oracle only)"""
+    E = c17enum
+    t = rng.choice([10, 10, 10, 11, 12, 13, 14, 15, 16, 17])
+    rdv = gen_api_rd(rng) if rng.random() < 0.3 else [1, 65000, 1]
+    def rules(v6):
+        out = []
+        for ty in sorted(rng.sample(range(1, 14 if v6 else 13), rng.choice([1, 1, 2, 3, 5]))):
+            if ty in (1, 2):
+                w = 128 if v6 else 32
+                m = rng.choice([0, 8, 16, 24, w]) if rng.random() < 0.85 else rng.choice([w + 1, 255, 256, 300])
+                base = rng.choice(['2001:db8::', '::', 'ff00::']) if v6 else rng.choice(['10.0.0.0', '0.0.0.0', '192.168.0.0', '10.1.2.3'])
+                out.append([1, ty, m, S(base), rng.choice([0, 0, 8, 255, 256]) if v6 else 0])
+            else:
+                n = rng.choice([1, 1, 2, 3, 0])
+                ops = [[rng.choice([0x01, 0x02, 0x03, 0x05, 0x41, 0x45, 0x11, 0x100]), rng.choice([0, 6, 17, 255, 256, 65535, 65536, 2 ** 32, 2 ** 64 - 1])] for _ in range(n)]
+                x = rng.random()
+                if ops and x < 0.6: ops[-1][0] |= 0x80
+                elif ops and x < 0.7: ops[0][0] |= 0x80
+                out.append([2, ty, ops])
+        if rng.random() < 0.05: out.append(rng.choice([[0], [3], [2, 99, [[0x81, 1]]]]))
+        return out
+    if t in (10, 11):
+        fam = rng.choice([E.FS4, E.FS6] if t == 10 else [E.FSV4, E.FSV6])
+        if rng.random() < 0.08: fam = rng.choice([E.V4U, E.FS4, E.FS6, E.FSV4, E.FSV6])
+        v6 = fam in (E.FS6, E.FSV6)
+        x = [10, rules(v6)] if t == 10 else [11, rdv, rules(v6)]
+    elif t == 12:
+        v6 = rng.random() < 0.5
+        fam = E.SR6 if v6 else E.SR4
+        if rng.random() < 0.1: fam = rng.choice([E.SR4, E.SR6, E.V4U])
+        x = [12, rng.choice([96, 192, 0]), u32(rng), u32(rng), [rng.randrange(256) for _ in range(rng.choice([4, 16] if rng.random() < 0.9 else [0, 5, 32]))]]
+    elif t == 13:
+        fam = E.RTCF
+        rt = rng.choice([[], [], [1, 1, 2, rng.choice([0, 65000, 65535, 65536]), u32(rng)], [2, 1, 2, ip4str(rng, 0.1), rng.choice([0, 65535, 65536])],
+                         [3, 1, 2, u32(rng), rng.choice([0, 65535, 65536])], [1, 0, 2, 1, 1], [1, 1, 3, 1, 1], [0]])
+        x = [13, rng.choice([0, 1, 65001, 2 ** 32 - 1]), rt]
+    else:
+        v6 = rng.random() < 0.5
+        fam = E.MUP6 if v6 else E.MUP4
+        if rng.random() < 0.1: fam = rng.choice([E.MUP4, E.MUP6, E.V4U])
+        w = 128 if v6 else 32
+        p = rng.choice(['2001:db8::', '::', '2001:db8::1']) if v6 else rng.choice(['10.0.0.0', '0.0.0.0', '10.0.0.1'])
+        a = rng.choice(['2001:db8::1', '::1']) if v6 else rng.choice(['192.0.2.1', '10.0.0.1'])
+        pl = rng.choice([0, 8, 24, w]) if rng.random() < 0.85 else rng.choice([w + 1, 255, 256])
+        if t == 14: x = [14, rdv, S('%s/%d' % (p, pl))]
+        elif t == 15: x = [15, rdv, S(a)]
+        elif t == 16: x = [16, rdv, S('%s/%d' % (p, pl)), u32(rng), rng.choice([0, 9, 255, 256]), w, S(a), rng.choice([0, w]), S(rng.choice(['', a]))]
+        else:
+            el = rng.choice([w, w + 8, w + 16, w + 32]) if rng.random() < 0.8 else rng.choice([0, w - 1, w + 33, 255, 256])
+            teid = u32(rng) if rng.random() < 0.4 else (u32(rng) >> (32 - min(32, max(0, el - w)))) << (32 - min(32, max(0, el - w))) if el > w else 0
+            x = [17, rdv, el, S(a), teid & 0xffffffff]
+    return {'k': 8, 'fam': fam, 'x': x}
 
 def gen_extcom_api(rng):
     t = rng.choice([1, 1, 2, 2, 3, 3, 4, 5, 6, 7, 8, 9, 10, 11, 0, 99])
@@ -699,6 +794,7 @@ class Prop:
         if c['k'] == 3: return [3, nlri_to_valx(c['n'], out=False)]
         if c['k'] == 4: return [4, c['opts'], c['msg']]
         if c['k'] == 5: return [5, c['fam'], c['nlri'], expand(c['attrs']), c['id']]
+        if c['k'] == 8: return [8, c['fam'], expand(c['x'])]
         if c['k'] == 6: return [6, c['api']]
         if c['k'] == 7: return [7, evpn_to_valx(c['e'], out=False)]
         raise ValueError(c)
@@ -709,6 +805,7 @@ class Prop:
         if c['k'] == 2: return 'run_api_nlri_case Debug %s' % api_nlri_to_coq(c['api'])
         if c['k'] == 3: return 'run_nlri_case %s' % nlri_to_coq(c['n'])
         if c['k'] == 4: return '(VL [])'     # the wide part has no model: judged by the oracle only
+        if c['k'] == 8 and not xnlri_modelled(c): return '(VL [])'
         if c['k'] == 6: return 'run_api_evpn_case %s' % api_evpn_to_coq(c['api'])
         if c['k'] == 7: return 'run_evpn_case %s' % evpn_to_coq(c['e'])
         if c['k'] == 5:
@@ -751,6 +848,8 @@ class Prop:
         for _ in range(nn):
             cases.append(gen_api_evpn_case(rng))
             cases.append(gen_evpn_case(rng))
+        for _ in range(nn):
+            cases.append(gen_xnlri_case(rng))
         for m in GOOD_MAC + BAD_MAC:
             cases.append({'k': 6, 'api': [2, [1, 65000, 1], [0, [0] * 9], 0, S(m), [], [100]]})
         # wide differential part: whole UPDATEs of every family / attribute kind (oracle only)
@@ -781,7 +880,7 @@ class Prop:
         return coqrun.eval_terms('C17', pre, [self.case_to_coq(c) for c in cases])
 
     def canon(self, case, obs):
-        if case['k'] == 4:
+        if case['k'] == 4 or (case['k'] == 8 and not xnlri_modelled(case)):
             return []       # not modelled (differential testing of the real round trip only)
         return obs
 
@@ -860,6 +959,8 @@ class Prop:
             for cls, txt in fails:
                 return 'wide[%s]: %s' % (cls, txt)
             return None
+        if c['k'] == 8:
+            return oracle_xnlri(c, obs)
         if c['k'] == 6:
             if obs[0] == 0:
                 return None
@@ -913,6 +1014,8 @@ class Prop:
     def in_known_class(self, kf, c, obs, why):
         if c['k'] == 4:
             return why.startswith('wide[%s]:' % kf['id'])
+        if c['k'] == 8:
+            return why.startswith('xnlri[%s]:' % kf['id'])
         if kf['id'] == 'C17-flags':
             # a held attribute of a defined type whose stored flags are not the canonical ones
             return c['k'] == 0 and obs[0] == 1 and obs[1][0] in CANON and obs[1][1] != CANON[obs[1][0]] \
@@ -922,7 +1025,7 @@ class Prop:
     def nontrivial_key(self, c, obs):
         if obs == [-1] or not obs:
             return None
-        if c['k'] in (0, 1, 2, 5, 6) and obs[0] == 1:
+        if c['k'] in (0, 1, 2, 5, 6, 8) and obs[0] == 1:
             return json.dumps(self.case_to_val(c))
         if c['k'] == 7 and not wf_evpn(evpn_to_valx(c['e'])):
             return json.dumps(self.case_to_val(c))
@@ -953,6 +1056,8 @@ class Prop:
             return ['api_evpn', 'api_evpn:type%d:%s' % (c['api'][0], st)]
         if c['k'] == 7:
             return ['evpn', 'evpn:type%d' % c['e'][0]]
+        if c['k'] == 8:
+            return ['xnlri', 'xnlri:%s:%s' % ({10: 'flowspec', 11: 'flowspec_vpn', 12: 'srpolicy', 13: 'rtc', 14: 'mup_isd', 15: 'mup_dsd', 16: 'mup_t1st', 17: 'mup_t2st'}.get(c['x'][0]), 'accepted' if obs and obs[0] == 1 else 'refused')]
         if c['k'] == 5:
             return ['local_path', 'local_path:%s:attrs_%d' % ('accepted' if obs and obs[0] == 1 else 'rejected', min(len(c['attrs']), 4))]
         if c['k'] == 4:
